@@ -16,7 +16,9 @@
 (* to outermost scope, module macros, core macros.                           *)
 EXTENDS Naturals, Sequences, FiniteSets, TLC, Json
 
-CONSTANTS MaxEvents
+CONSTANTS MaxEvents,
+          Focus     \* "all": every kind of event; "nest": only defmacro / scopes / calls of one name
+                    \* (deep nestings with few distinct events)
 
 \* names that may be defined or called.  "when" is a core macro.
 DefNames == {"m", "when"}
@@ -100,11 +102,13 @@ EvalCall(n, x) == /\ hist' = Append(hist, [ev |-> IF x THEN "evalx" ELSE "eval",
 
 Next == /\ Len(hist) < MaxEvents
         /\ (Len(hist) + Len(loc) < MaxEvents \/ loc # <<>>)     \* leave room to close the open scopes
-        /\ \/ \E n \in DefNames : Def(n)
-           \/ \E sh \in Shapes : Req(sh)
-           \/ Enter \/ Exit \/ Pragma
-           \/ \E n \in {"m", "when", "a", "bb", "S.a", "p.a", "_c", "S2.a", "S2.b", "S._c", "b"} : Call(n)
-           \/ \E n \in {"m", "when", "a"} : \E x \in BOOLEAN : EvalCall(n, x)
+        /\ IF Focus = "nest"
+             THEN Def("m") \/ Enter \/ Exit \/ Call("m") \/ Req("star") \/ Call("a")
+             ELSE \/ \E n \in DefNames : Def(n)
+                  \/ \E sh \in Shapes : Req(sh)
+                  \/ Enter \/ Exit \/ Pragma
+                  \/ \E n \in {"m", "when", "a", "bb", "S.a", "p.a", "_c", "S2.a", "S2.b", "S._c", "b"} : Call(n)
+                  \/ \E n \in {"m", "when", "a"} : \E x \in BOOLEAN : EvalCall(n, x)
 Spec == Init /\ [][Next]_vars
 
 \* ---- laws
